@@ -4,7 +4,7 @@
 -/
 import Simpleline.Lemmas.InputFlight
 
-namespace Simpleline
+namespace Simpleline.Input
 
 /-- lines in flight -/
 def fl (c : Cfg) : Nat := c.A.readers.length + irQ c.L.queues + irCode c.code
@@ -63,7 +63,7 @@ theorem Fle_trans {a b c : Cfg} (h1 : Fle a b) (h2 : Fle b c) : Fle a c :=
 theorem isIR_of_not_input {s : Sig} (h : s.cls.isInput = false) : isIR s = false := by
   unfold isIR; cases hs : s.cls <;> simp_all [Cls.isInput]
 
-macro "fle_leaf" : tactic => `(tactic| first
+macro "inp_fle_leaf" : tactic => `(tactic| first
     | (with_reducible exact Fle_raise _ _)
     | (unfold Fle fl; simp [Instr.irPending, irQ_enqueue, isIR, Cfg.newSig, irCode_acts]; done)
     | (unfold Fle fl; simp [Instr.irPending, irQ_enqueue, isIR, Cfg.newSig, irCode_acts]; omega))
@@ -72,8 +72,8 @@ theorem Fle_doAct (c : Cfg) (a : Act) (ha : a.forges = false) : Fle (final (doAc
   unfold doAct
   split <;> (try dsimp only) <;>
     first
-    | fle_leaf
-    | (split <;> fle_leaf)
+    | inp_fle_leaf
+    | (split <;> inp_fle_leaf)
     | skip
   · simp only [Act.forges] at ha
     unfold Fle fl
@@ -89,12 +89,12 @@ theorem FlightOK_take (c1 : Cfg) (f : Sig → List Instr)
   unfold FlightOK
   rw [this.2]; exact this.1
 
-macro "fl_close" : tactic => `(tactic|
+macro "inp_fl_close" : tactic => `(tactic|
   (simp [FlightOK, fl, Instr.irPending, irQ_enqueue, isIR, Cfg.newSig, irCode_acts] at * <;> omega))
 
-macro "fl_leaf" : tactic => `(tactic| first
-    | ((with_reducible apply FlightOK_of_Fle (Fle_raise _ _)); fl_close)
-    | fl_close)
+macro "inp_fl_leaf" : tactic => `(tactic| first
+    | ((with_reducible apply FlightOK_of_Fle (Fle_raise _ _)); inp_fl_close)
+    | inp_fl_close)
 
 theorem irPending_callH {c : Cfg} {s : Sig} {i : Nat} {h : HRef} {d : Option Nat} (hH : HandlersOK c)
     (hg : (handlersOf c.L s.cls)[i]? = some (h, d)) :
@@ -208,16 +208,16 @@ theorem flight_step (P : Prog) (c : Cfg) (hc : cleanCode c.code) (hH : HandlersO
     all_goals try simp only [Instr.clean, Bool.not_eq_eq_eq_not, Bool.not_true, decide_eq_true_eq] at hins
     all_goals simp only [Instr.irPending] at hf'
     all_goals dsimp only
-    all_goals try (fl_leaf; done)
+    all_goals try (inp_fl_leaf; done)
     all_goals try (first
-      | ((with_reducible apply FlightOK_take (f := fun s => [Instr.processSignal s])) <;> fl_close; done)
-      | ((with_reducible refine FlightOK_of_Fle (Fle_doAct _ _ hins) ?_); fl_close))
-    all_goals try (split <;> try (fl_leaf; done))
+      | ((with_reducible apply FlightOK_take (f := fun s => [Instr.processSignal s])) <;> inp_fl_close; done)
+      | ((with_reducible refine FlightOK_of_Fle (Fle_doAct _ _ hins) ?_); inp_fl_close))
+    all_goals try (split <;> try (inp_fl_leaf; done))
     all_goals try (first
-      | ((with_reducible apply FlightOK_take (f := fun s => [Instr.processSignal s, _])) <;> fl_close; done))
-    all_goals try (split <;> try (fl_leaf; done))
-    all_goals try (split <;> try (fl_leaf; done))
-    all_goals try (split <;> try (fl_leaf; done))
+      | ((with_reducible apply FlightOK_take (f := fun s => [Instr.processSignal s, _])) <;> inp_fl_close; done))
+    all_goals try (split <;> try (inp_fl_leaf; done))
+    all_goals try (split <;> try (inp_fl_leaf; done))
+    all_goals try (split <;> try (inp_fl_leaf; done))
     all_goals try ((with_reducible apply FlightOK_startRequest); simp [FlightOK, fl, newIH, Instr.irPending] at * <;> omega)
     all_goals try (simp [FlightOK, fl, irCode_acts] at *)
     all_goals try ((with_reducible apply flight_emit_le); simp [Instr.irPending]; omega)
@@ -274,4 +274,4 @@ theorem inputInv_reach {P : Prog} {c0 c : Cfg} (h0 : Started c0) (hU : UserHandl
   · rw [hp] at hfl; simp at hfl
   · rfl
 
-end Simpleline
+end Simpleline.Input
